@@ -29,7 +29,7 @@ pub struct SchedCase {
     pub faults: Vec<Fault>,
     /// value of FLACENC_WORKERS (None = unset)
     pub env: Option<String>,
-    /// 0 = uniform random walk, 1 = PCT
+    /// 0 = uniform random walk, 1 = PCT, 2 / 3 / 4 = starve the hashing thread / the feeder / the workers
     pub strategy: u8,
     pub pct_depth: usize,
     pub choices: Vec<u8>,
@@ -105,7 +105,11 @@ struct Scheduled {
 }
 
 fn run_scheduled(case: &SchedCase, samples: &[i32], seed: u64, partial: ExecResult) -> Scheduled {
-    let strategy = if case.strategy == 1 { SchedStrategy::Pct } else { SchedStrategy::Uniform };
+    let strategy = match case.strategy {
+        1 => SchedStrategy::Pct,
+        2..=4 => SchedStrategy::Starve(case.strategy - 2),
+        _ => SchedStrategy::Uniform,
+    };
     let s = Sched::new(strategy, case.choices.clone(), seed, case.pct_depth);
     {
         let purpose = case.purpose.clone();
@@ -167,7 +171,7 @@ pub fn exec_case(case: &SchedCase) -> ExecResult {
         Some(x) if x.parse::<usize>().map_or(false, |v| v > 0 && v < 100) => "number",
         Some(_) => "unparsable",
     }));
-    r.classes.push(format!("strategy:{}", if case.strategy == 1 { "pct" } else { "uniform" }));
+    r.classes.push(format!("strategy:{}", ["uniform", "pct", "starve-hasher", "starve-feeder", "starve-workers"][(case.strategy as usize).min(4)]));
     // reference: single-thread mode, same (possibly faulty) source; no hook installed
     let reference = run_encode(case, &samples, false);
     if reference.kind == "config-rejected" {
@@ -408,7 +412,7 @@ pub fn check(case: &SchedCase) -> Outcome {
 // ------------------------------------------------------------------------------------------------
 
 fn small_input(min_frames: usize, max_frames: usize) -> BoxedStrategy<(CfgSpec, InputSpec)> {
-    gen::cfg_strategy(CfgOpts { max_block: 192, ..Default::default() })
+    gen::with_cfg_block(gen::cfg_strategy(CfgOpts { max_block: 192, ..Default::default() }))
         .prop_flat_map(move |cfg| {
             let b = cfg.block_size;
             (Just(cfg), gen::input_strategy(b, InOpts { budget: 6000, max_channels: 3, ..Default::default() }), min_frames..=max_frames, 0usize..b)
@@ -421,7 +425,7 @@ fn small_input(min_frames: usize, max_frames: usize) -> BoxedStrategy<(CfgSpec, 
 }
 
 fn sched_fields() -> impl Strategy<Value = (u8, usize, Vec<u8>, u64, u64)> {
-    (0u8..=1, 0usize..=4, proptest::collection::vec(any::<u8>(), 0..40), any::<u64>(), any::<u64>())
+    (prop_oneof![3 => Just(0u8), 3 => Just(1u8), 2 => Just(2u8), 1 => Just(3u8), 1 => Just(4u8)], 0usize..=4, proptest::collection::vec(any::<u8>(), 0..40), any::<u64>(), any::<u64>())
 }
 
 pub fn env_strategy() -> BoxedStrategy<Option<String>> {
@@ -439,8 +443,22 @@ pub fn env_strategy() -> BoxedStrategy<Option<String>> {
     .boxed()
 }
 
+/// more blocks than the hashing queue holds (16) and than there are frame buffers (2 x workers)
+fn many_frames_input() -> BoxedStrategy<(CfgSpec, InputSpec)> {
+    gen::with_cfg_block(gen::cfg_strategy(CfgOpts { max_block: 64, ..Default::default() }))
+        .prop_flat_map(move |cfg| {
+            let b = cfg.block_size;
+            (Just(cfg), gen::input_strategy(b, InOpts { budget: 6000, max_channels: 2, ..Default::default() }), 17usize..=45, 0usize..b)
+        })
+        .prop_map(|(cfg, mut inp, k, r)| {
+            inp.len = k * cfg.block_size + if r % 3 == 0 { 0 } else { r };
+            (cfg, inp)
+        })
+        .boxed()
+}
+
 pub fn c05_strategy() -> BoxedStrategy<SchedCase> {
-    (small_input(3, 12), prop_oneof![3 => (1usize..=8).prop_map(Some), 1 => Just(None)], env_strategy(), sched_fields(), super::common::src_strategy(), any::<bool>())
+    (prop_oneof![3 => small_input(3, 12), 1 => many_frames_input()], prop_oneof![3 => (1usize..=8).prop_map(Some), 1 => Just(None)], env_strategy(), sched_fields(), super::common::src_strategy(), any::<bool>())
         .prop_map(|((mut cfg, inp), workers, env, (strategy, pct_depth, choices, s1, s2), src, fe)| {
             cfg.multithread = true;
             cfg.workers = workers;
@@ -477,7 +495,7 @@ pub fn c06_strategy() -> BoxedStrategy<SchedCase> {
 }
 
 pub fn c03_strategy() -> BoxedStrategy<SchedCase> {
-    (small_input(1, 30), 1usize..=4, sched_fields(), super::common::src_strategy(), any::<bool>())
+    (prop_oneof![2 => small_input(1, 30), 1 => many_frames_input()], 1usize..=4, sched_fields(), super::common::src_strategy(), any::<bool>())
         .prop_map(|((mut cfg, inp), workers, (strategy, pct_depth, choices, s1, s2), src, fe)| {
             cfg.multithread = true;
             cfg.workers = Some(workers);
@@ -492,7 +510,7 @@ pub fn c03_strategy() -> BoxedStrategy<SchedCase> {
 
 pub fn run_c05(ctx: &Ctx) {
     ctx.rule(
-        "cases = (config with multithread, >= 3-frame input, workers in {1..8, None}, FLACENC_WORKERS in {unset, 1..8, '0', '', 'abc', '-1', ' 2', 2^70, '00'}, schedule = (strategy uniform|PCT, choice bytes, seed)); \
+        "cases = (config with multithread, >= 3-frame input, workers in {1..8, None}, FLACENC_WORKERS in {unset, 1..8, '0', '', 'abc', '-1', ' 2', 2^70, '00'}, schedule = (strategy uniform | PCT | starve-the-hashing-thread | starve-the-feeder | starve-the-workers, choice bytes, seed); a quarter of the cases have 17..=45 frames (more than the hashing queue and the frame buffers hold)); \
          every case runs in an executor process under the schedule-owning scheduler; oracle: bytes(multi under schedule) == bytes(single) == bytes(frame-by-frame assembly) == bytes(multi under a second schedule), no dead-lock, no panic, no thread alive at return; \
          non-trivial = result pushes out of frame order, or a worker popped a buffer while the feeder was blocked on the refill queue",
     );
@@ -531,7 +549,7 @@ pub fn run_c06(ctx: &Ctx) {
                         cfg.block_size = 32;
                         cfg.multithread = true;
                         cfg.workers = Some(w);
-                        let inp = InputSpec { channels: 1 + (frames + k) % 2, bps: 16, rate: 44100, len: frames * 32 - (k % 2) * 5, chans: vec![gen::ChanSpec { segs: vec![gen::Seg { class: 5, amp: 3, p: 77 }] }; 2], rel: 0, seed: (frames * 100 + k) as u64 };
+                        let inp = InputSpec { channels: 1 + (frames + k) % 2, bps: 16, rate: 44100, len: frames * 32 - (k % 2) * 5, chans: vec![gen::ChanSpec { segs: vec![gen::Seg { class: 5, amp: 3, p: 77 }] }; 2], rel: 0, seed: (frames * 100 + k) as u64, explicit: None };
                         let faults = vec![if kind == 0 { Fault::ReadErr(k) } else { Fault::Range(k, 3) }];
                         grid.push(SchedCase {
                             purpose: "c06".into(),
@@ -541,7 +559,7 @@ pub fn run_c06(ctx: &Ctx) {
                             fill_empty_at_end: s % 4 < 2,
                             faults,
                             env: None,
-                            strategy: (s % 2) as u8,
+                            strategy: (s % 5) as u8,
                             pct_depth: 1 + s % 3,
                             choices: vec![],
                             sched_seed: crate::util::mix(ctx.seed, (frames * 1000 + k * 50 + w * 10 + s) as u64),
